@@ -36,15 +36,18 @@ class Ctx:
         self.divergences = []
         self.tlc_runs = []
         self.exhaustive = None
+        self.incomplete = False
         self.known = [k for k in load_known() if pid in k.get('properties', [])]
 
     # -- accounting --------------------------------------------------------
     def tlc(self, label, res, expect_ok=True):
         self.states += res.distinct
+        if not getattr(res, 'complete', True):
+            self.incomplete = True
         self.transitions += res.generated
         self.tlc_runs.append({'label': label, 'mode': res.mode, 'distinct_states': res.distinct,
                               'states_generated': res.generated, 'depth': res.depth,
-                              'wall_s': round(res.wall_s, 2),
+                              'wall_s': round(res.wall_s, 2), 'complete': getattr(res, 'complete', True),
                               'violations': [v['name'] for v in res.violations]})
         return res
 
@@ -101,7 +104,7 @@ class Ctx:
             'known_findings_hit': self.known_hits,
         }
         if self.exhaustive is not None:
-            cov['exhaustive'] = bool(self.exhaustive)
+            cov['exhaustive'] = bool(self.exhaustive) and not self.incomplete
         cov.update(self.extra)
         ev = {
             'property_id': self.pid, 'tier': self.tier, 'seed': self.seed,
